@@ -35,7 +35,7 @@ Record alt_ok2 (t : str) (p : possi) : Prop := {
   alt_head2 : exists c t', t = c :: t' /\ is_ws c = false /\ eqc c 0 = false /\ eqc c 44 = false /\ eqc c 124 = false }.
 
 Lemma alt_free2 name q cl : name <> [] -> forallb namec name = true -> eqc (peek name) 36 = false ->
-  (match q with None => True | Some a => forallb mac (arch_string a) = true /\ parse_arch (arch_string a) = a end) ->
+  (match q with None => True | Some a => forallb mac (arch_string a) = true /\ parse_arch (arch_string a) = a /\ arch_ok (arch_string a) = true end) ->
   clauses_ok (base name q) cl -> alt_ok2 (name ++ qual_text q ++ clauses_text cl) (result name q cl).
 Proof.
   intros Hne Hc Hd Ha W.
